@@ -744,7 +744,7 @@ fn data_arm_error<const LEFT: usize, const N: usize>() {
     vcover!(true, "end_reached");
 }
 
-//@ harness props=C16,C07 tier=thorough optional=yes unwind=22 unwindset=process_mode:7,extend_with:3,CountSink.*4take:6 mem_gb=8 timeout=1800 native=no
+//@ harness props=C16,C07 tier=thorough optional=yes unwind=22 unwindset=process_mode:7,extend_with:3,CountSink.*4take:6 mem_gb=8 timeout=1800 native=no cbmc=--max-field-sensitivity-array-size;1024
 //@ bound: Stream built in the data state with 8 staged leftover bytes; write(3 symbolic bytes) where the second abstract symbol is corrupt; then write, finish
 #[cfg_attr(kani, kani::proof)]
 #[cfg_attr(kani, kani::stub(std::fmt::format, crate::verif_common::stub_format))]
@@ -772,4 +772,243 @@ pub fn stream_data_arm_error_l2_n20() {
 #[cfg_attr(kani, kani::stub(crate::decode::lzma::DecoderState::process_next_inner, crate::decode::lzma::verif_h::abs_symbol))]
 pub fn stream_data_arm_error_l0_n6() {
     data_arm_error::<0, 6>()
+}
+
+// ---------------------------------------------------------------------------------------
+// The data arm of Stream::write with `Stream::read_data` replaced by a scripted observer
+// (read_data = process_stream + write-back of (range, code): decided directly in
+// stream_read_data_*). What is decided here is the arm's own glue: the staged leftover is
+// drained first and exactly once, the new input follows, an error from either call is returned
+// AND latches the stream, later writes consume nothing.
+// ---------------------------------------------------------------------------------------
+use std::sync::atomic::{AtomicUsize, Ordering};
+pub static RD_CALLS: AtomicUsize = AtomicUsize::new(0);
+pub static RD_FAIL_AT: AtomicUsize = AtomicUsize::new(usize::MAX);
+pub static RD_LEN0: AtomicUsize = AtomicUsize::new(usize::MAX);
+pub static RD_LEN1: AtomicUsize = AtomicUsize::new(usize::MAX);
+pub static RD_LEN2: AtomicUsize = AtomicUsize::new(usize::MAX);
+pub static RD_LEN3: AtomicUsize = AtomicUsize::new(usize::MAX);
+
+impl<W> Stream<W>
+where
+    W: Write,
+{
+    /// scripted stand-in for read_data (an inherent method so that its generics line up with the original's)
+    pub fn scripted_read_data<R: BufRead>(state: &mut RunState<W>, input: &mut R) -> io::Result<()> {
+        scripted_read_data_impl(state, input)
+    }
+}
+
+pub fn scripted_read_data_impl<W: Write, R: BufRead>(_state: &mut RunState<W>, input: &mut R) -> io::Result<()> {
+    let k = RD_CALLS.load(Ordering::Relaxed);
+    RD_CALLS.store(k + 1, Ordering::Relaxed);
+    let n = match input.fill_buf() {
+        Ok(b) => b.len(),
+        Err(e) => return Err(e),
+    };
+    input.consume(n);
+    if k == 0 {
+        RD_LEN0.store(n, Ordering::Relaxed);
+    } else if k == 1 {
+        RD_LEN1.store(n, Ordering::Relaxed);
+    } else if k == 2 {
+        RD_LEN2.store(n, Ordering::Relaxed);
+    } else {
+        RD_LEN3.store(n, Ordering::Relaxed);
+    }
+    if k == RD_FAIL_AT.load(Ordering::Relaxed) {
+        return Err(io_fault());
+    }
+    Ok(())
+}
+
+fn data_arm_glue<const LEFT: usize, const N: usize, const FAIL: usize>() {
+    let mut t = Tape::<64>::new();
+    let left: [u8; 18] = t.bytes::<18>();
+    let input: [u8; N] = t.bytes::<N>();
+    let extra = [t.u8(), t.u8()];
+    RD_CALLS.store(0, Ordering::Relaxed);
+    RD_FAIL_AT.store(FAIL, Ordering::Relaxed);
+    let d = light_state::<0>(LzmaProperties { lc: 0, lp: 0, pb: 0 }, None);
+    let mut tmp = std::io::Cursor::new([0u8; MAX_TMP_LEN]);
+    {
+        let b = tmp.get_mut();
+        let mut i = 0;
+        while i < LEFT {
+            b[i] = left[i];
+            i += 1;
+        }
+    }
+    tmp.set_position(LEFT as u64);
+    let rs = RunState {
+        decoder: d,
+        range: t.u32(),
+        code: t.u32(),
+        output: crate::decode::lzbuffer::verif_h::circ_from_stream_with_capacity(CountSink::new(), 0x1000, usize::MAX),
+    };
+    let mut s = Stream {
+        tmp,
+        state: Some(State::Data(Box::new(rs))),
+        options: opts(false, None),
+    };
+    let r1 = s.write(&input[..]);
+    let n1 = match &r1 {
+        Ok(n) => *n,
+        Err(_) => usize::MAX,
+    };
+    forget(r1);
+    let calls1 = RD_CALLS.load(Ordering::Relaxed);
+    let first_calls = if LEFT > 0 { 2 } else { 1 };
+    if FAIL < first_calls {
+        vassert!(n1 == usize::MAX, "data arm: an error while decoding (staged leftover or new input) is returned by write");
+        vassert!(is_failed(&s), "data arm: the stream is failed after a decoding error, also when it occurs while draining the staged bytes");
+        vassert!(calls1 == FAIL + 1, "data arm: nothing more is decoded after the failing call");
+    } else {
+        vassert!(n1 == N, "data arm: the whole piece is consumed");
+        vassert!(calls1 == first_calls, "data arm: the staged leftover is drained (once) before the new input");
+        if LEFT > 0 {
+            vassert!(RD_LEN0.load(Ordering::Relaxed) == LEFT && RD_LEN1.load(Ordering::Relaxed) == N, "data arm: first the staged bytes, then the new input, each in full");
+        } else {
+            vassert!(RD_LEN0.load(Ordering::Relaxed) == N, "data arm: the new input in full");
+        }
+        vassert!(s.tmp.position() == 0, "data arm: the staged bytes are forgotten once drained");
+        vassert!(!is_failed(&s), "data arm: the stream stays usable");
+    }
+    // a further write
+    let r2 = s.write(&extra[..]);
+    let n2 = match &r2 {
+        Ok(n) => *n,
+        Err(_) => usize::MAX,
+    };
+    forget(r2);
+    let calls2 = RD_CALLS.load(Ordering::Relaxed);
+    if FAIL < first_calls {
+        vassert!(n2 == 0, "data arm: writes after a decoding error consume nothing");
+        vassert!(calls2 == calls1, "data arm: nothing is decoded after the stream failed");
+        let fin = s.finish();
+        vassert!(fin.is_err(), "data arm: finish after a decoding error is an error");
+        forget(fin);
+    } else {
+        vassert!(calls2 == calls1 + 1, "data arm: the next write decodes only its own bytes (the staged leftover is not fed again)");
+        let last = if calls1 == 1 { RD_LEN1.load(Ordering::Relaxed) } else { RD_LEN2.load(Ordering::Relaxed) };
+        vassert!(n2 == 2 && last == 2, "data arm: the next write is consumed in full");
+        forget(s);
+    }
+    vcover!(true, "end_reached");
+}
+
+//@ harness props=C16,C05,C15,C07 tier=quick unwind=20 mem_gb=6 timeout=600 native=no
+//@ bound: data arm of Stream::write with read_data scripted: 8 staged leftover bytes, write(3 bytes), no failure; then another write (and finish)
+#[cfg_attr(kani, kani::proof)]
+#[cfg_attr(kani, kani::stub(std::fmt::format, crate::verif_common::stub_format))]
+#[cfg_attr(kani, kani::stub(std::io::Error::is_interrupted, crate::verif_common::stub_not_interrupted))]
+#[cfg_attr(kani, kani::stub(crate::decode::stream::Stream::read_data, crate::decode::stream::Stream::scripted_read_data))]
+pub fn stream_data_arm_glue_l8_n3_ok() {
+    data_arm_glue::<8, 3, 18446744073709551615>()
+}
+
+//@ harness props=C16,C05,C15,C07 tier=quick unwind=20 mem_gb=6 timeout=600 native=no
+//@ bound: data arm of Stream::write with read_data scripted: 8 staged leftover bytes, write(3 bytes), decoding the staged leftover fails; then another write (and finish)
+#[cfg_attr(kani, kani::proof)]
+#[cfg_attr(kani, kani::stub(std::fmt::format, crate::verif_common::stub_format))]
+#[cfg_attr(kani, kani::stub(std::io::Error::is_interrupted, crate::verif_common::stub_not_interrupted))]
+#[cfg_attr(kani, kani::stub(crate::decode::stream::Stream::read_data, crate::decode::stream::Stream::scripted_read_data))]
+pub fn stream_data_arm_glue_l8_n3_fail0() {
+    data_arm_glue::<8, 3, 0>()
+}
+
+//@ harness props=C16,C05,C15,C07 tier=quick unwind=20 mem_gb=6 timeout=600 native=no
+//@ bound: data arm of Stream::write with read_data scripted: 8 staged leftover bytes, write(3 bytes), decoding the new input fails; then another write (and finish)
+#[cfg_attr(kani, kani::proof)]
+#[cfg_attr(kani, kani::stub(std::fmt::format, crate::verif_common::stub_format))]
+#[cfg_attr(kani, kani::stub(std::io::Error::is_interrupted, crate::verif_common::stub_not_interrupted))]
+#[cfg_attr(kani, kani::stub(crate::decode::stream::Stream::read_data, crate::decode::stream::Stream::scripted_read_data))]
+pub fn stream_data_arm_glue_l8_n3_fail1() {
+    data_arm_glue::<8, 3, 1>()
+}
+
+//@ harness props=C16,C05,C15,C07 tier=quick unwind=20 mem_gb=6 timeout=600 native=no
+//@ bound: data arm of Stream::write with read_data scripted: 0 staged leftover bytes, write(6 bytes), no leftover, no failure; then another write (and finish)
+#[cfg_attr(kani, kani::proof)]
+#[cfg_attr(kani, kani::stub(std::fmt::format, crate::verif_common::stub_format))]
+#[cfg_attr(kani, kani::stub(std::io::Error::is_interrupted, crate::verif_common::stub_not_interrupted))]
+#[cfg_attr(kani, kani::stub(crate::decode::stream::Stream::read_data, crate::decode::stream::Stream::scripted_read_data))]
+pub fn stream_data_arm_glue_l0_n6_ok() {
+    data_arm_glue::<0, 6, 18446744073709551615>()
+}
+
+//@ harness props=C16,C05,C15,C07 tier=quick unwind=20 mem_gb=6 timeout=600 native=no
+//@ bound: data arm of Stream::write with read_data scripted: 0 staged leftover bytes, write(6 bytes), no leftover, decoding fails; then another write (and finish)
+#[cfg_attr(kani, kani::proof)]
+#[cfg_attr(kani, kani::stub(std::fmt::format, crate::verif_common::stub_format))]
+#[cfg_attr(kani, kani::stub(std::io::Error::is_interrupted, crate::verif_common::stub_not_interrupted))]
+#[cfg_attr(kani, kani::stub(crate::decode::stream::Stream::read_data, crate::decode::stream::Stream::scripted_read_data))]
+pub fn stream_data_arm_glue_l0_n6_fail0() {
+    data_arm_glue::<0, 6, 0>()
+}
+
+//@ harness props=C16,C05,C15,C07 tier=quick unwind=20 mem_gb=6 timeout=600 native=no
+//@ bound: data arm of Stream::write with read_data scripted: 17 staged leftover bytes, write(1 bytes), 17 staged bytes, no failure; then another write (and finish)
+#[cfg_attr(kani, kani::proof)]
+#[cfg_attr(kani, kani::stub(std::fmt::format, crate::verif_common::stub_format))]
+#[cfg_attr(kani, kani::stub(std::io::Error::is_interrupted, crate::verif_common::stub_not_interrupted))]
+#[cfg_attr(kani, kani::stub(crate::decode::stream::Stream::read_data, crate::decode::stream::Stream::scripted_read_data))]
+pub fn stream_data_arm_glue_l17_n1_ok() {
+    data_arm_glue::<17, 1, 18446744073709551615>()
+}
+
+/// Stream::read_data called directly (RunState by value): it runs process_stream on the input
+/// and writes (range, code) back into the run state; a decoding error is mapped to an io error.
+fn read_data_unit<const N: usize, const BAD: bool>() {
+    let mut t = Tape::<64>::new();
+    let input: [u8; N] = t.bytes::<N>();
+    let range = t.u32();
+    let code = t.u32();
+    let mut d = light_state::<0>(LzmaProperties { lc: 0, lp: 0, pb: 0 }, None);
+    set_script(&mut d, [script(2, K_LIT), script(3, if BAD { K_BAD } else { K_LIT }), script(20, K_LIT), script(20, K_LIT)]);
+    let mut rs = RunState {
+        decoder: d,
+        range,
+        code,
+        output: crate::decode::lzbuffer::verif_h::circ_from_stream_with_capacity(CountSink::new(), 0x1000, usize::MAX),
+    };
+    let mut rd = ArrReader::<N>::new(input, N);
+    let r = Stream::read_data(&mut rs, &mut rd);
+    let ok = r.is_ok();
+    forget(r);
+    // N = 7: symbols of 2 and 3 bytes complete, 2 bytes of the next (20-byte) symbol stashed
+    let (a, b) = crate::decode::lzma::verif_h::abs_fold(range, code, input[0], input[1]);
+    if BAD {
+        vassert!(!ok, "read_data: a decoding error becomes an io error");
+    } else {
+        vassert!(ok, "read_data: well-formed partial input is accepted");
+        let (a2, b2) = crate::decode::lzma::verif_h::abs_fold(a, b, input[2], input[4]);
+        vassert!(rs.range == a2 && rs.code == b2, "read_data: (range, code) after the committed symbols are written back to the run state");
+        vassert!(crate::decode::lzbuffer::verif_h::circ_total(&rs.output) == 2, "read_data: both complete symbols decoded into the window");
+        vassert!(rd.pos == N, "read_data: the input piece is drained (the incomplete tail is stashed)");
+    }
+    vcover!(true, "end_reached");
+    forget(rs);
+}
+
+//@ harness props=C05,C16,C15 tier=quick unwind=22 unwindset=process_mode:7,extend_with:3 mem_gb=6 timeout=600 native=no
+//@ bound: Stream::read_data directly: 7 symbolic bytes = abstract symbols of 2 and 3 bytes + 2 bytes of the next; symbolic (range, code)
+#[cfg_attr(kani, kani::proof)]
+#[cfg_attr(kani, kani::stub(std::fmt::format, crate::verif_common::stub_format))]
+#[cfg_attr(kani, kani::stub(std::io::Error::is_interrupted, crate::verif_common::stub_not_interrupted))]
+#[cfg_attr(kani, kani::stub(crate::decode::lzma::DecoderState::process_next_inner, crate::decode::lzma::verif_h::abs_symbol))]
+pub fn stream_read_data_ok() {
+    read_data_unit::<7, false>()
+}
+
+//@ harness props=C05,C16 tier=quick unwind=22 unwindset=process_mode:7,extend_with:3 mem_gb=6 timeout=600 native=no
+//@ bound: Stream::read_data directly: 25 symbolic bytes whose second abstract symbol is corrupt
+#[cfg_attr(kani, kani::proof)]
+#[cfg_attr(kani, kani::stub(std::fmt::format, crate::verif_common::stub_format))]
+#[cfg_attr(kani, kani::stub(std::io::Error::is_interrupted, crate::verif_common::stub_not_interrupted))]
+#[cfg_attr(kani, kani::stub(crate::decode::lzma::DecoderState::process_next_inner, crate::decode::lzma::verif_h::abs_symbol))]
+pub fn stream_read_data_corrupt() {
+    // 25 bytes: when the corrupt symbol is reached 23 >= 20 bytes are still available, so it is
+    // decoded for real (with fewer than 20 bytes left a failing dry run only defers it)
+    read_data_unit::<25, true>()
 }
